@@ -250,7 +250,11 @@ func (t *Tree) buildNode(i int, spec BlockSpec, parent *TNode) *TNode {
 	node.ID = b.ID()
 	hcs := cs
 	hcs.Index.ID = b.ParentID // (differs from the parent only for the unknown-parent corruption)
-	node.Hdr = consensus.ApplyHeader(hcs, b.Header(), hdrAncestorTimestamp(cs, t.Genesis.Timestamp))
+	hts := hdrAncestorTimestamp(cs, t.Genesis.Timestamp)
+	if parent.Ledger != nil {
+		hts = parent.Ledger.AncestorTimestamp()
+	}
+	node.Hdr = consensus.ApplyHeader(hcs, b.Header(), hts)
 	if b.ParentID != parent.ID {
 		node.Err = fmt.Errorf("unknown parent")
 		node.OwnInvalid = true
